@@ -115,7 +115,7 @@ def main():
 
     import numpy as np
     from webob import Request
-    from pydap.client import open_url
+    from pydap.client import open_dods_url, open_url
     from pydap.handlers.lib import BaseHandler
     from pydap.model import BaseType, GridType
     from pydap.wsgi.ssf import ServerSideFunctions
@@ -196,7 +196,7 @@ def main():
                 beside = rng.choice(["", "g.a,", "loc,"]) if "." not in name else ""
                 url = "/d.dods?%s%s" % (beside, call)
                 try:
-                    res = open_url("http://localhost:8001/d?%s%s" % (beside, call), application=ssf)
+                    res = open_dods_url("http://localhost:8001/d.dods?%s%s" % (beside, call), application=ssf)
                     leaf = name.split(".")[-1]
                     var = res[leaf] if leaf in res.keys() else res[name.split(".")[0]][leaf]
                     got = np.asarray(var.data[:]) if var.shape else np.asarray(var.data)
@@ -220,7 +220,7 @@ def main():
                     stats["nested_means"] += 1
                     call2 = "mean(mean(%s,%d),%d)" % (name, axis, a2)
                     try:
-                        res = open_url("http://localhost:8001/d?" + call2, application=ssf)
+                        res = open_dods_url("http://localhost:8001/d.dods?" + call2, application=ssf)
                         leaf = name.split(".")[-1]
                         var = res[leaf]
                         got = np.asarray(var.data[:]) if var.shape else np.asarray(var.data)
@@ -235,7 +235,7 @@ def main():
             stats["mean_calls"] += 1
             call = "mean(g,%d)" % axis
             try:
-                res = open_url("http://localhost:8001/d?" + call, application=ssf)
+                res = open_dods_url("http://localhost:8001/d.dods?" + call, application=ssf)
                 gg = res["g"]
                 got = np.asarray(gg["a"].data[:]) if gg["a"].shape else np.asarray(gg["a"].data)
                 want = exact_mean(ga, axis)
@@ -276,7 +276,7 @@ def main():
                 clist(rows, lambda r_: clist(list(r_), lambda v: "(%d)%%Z" % v)),
                 clist(want_rows, lambda r_: clist(list(r_), lambda v: "(%d)%%Z" % v))))
             try:
-                res = open_url("http://localhost:8001/d?%s%s%s" % (proj, "&" if proj else "", call), application=ssf)
+                res = open_dods_url("http://localhost:8001/d.dods?%s%s%s" % (proj, "&" if proj else "", call), application=ssf)
                 seq = res["loc"]
                 names = list(seq.keys())
                 got = [tuple(int(v) for v in rec) for rec in seq.iterdata()]
@@ -326,7 +326,7 @@ def main():
         try:
             v1 = np.asarray(client.functions.mean(client["x"], 0)["x"].data[:]) if arrays["x"][0].ndim > 1 else np.asarray(
                 client.functions.mean(client["x"], 0)["x"].data)
-            raw = open_url("http://localhost:8001/d?mean(x,0)", application=ssf)["x"]
+            raw = open_dods_url("http://localhost:8001/d.dods?mean(x,0)", application=ssf)["x"]
             v2 = np.asarray(raw.data[:]) if raw.shape else np.asarray(raw.data)
             if not np.array_equal(v1, v2):
                 direct.append({"law": "a function call made through the client's function proxy returns the same values as the raw request",
